@@ -60,10 +60,21 @@ condition_variable_notify_all(struct condition_variable* self)
     ++verif_notify_count;
     verif_on_notify(self);
 }
+#ifdef VERIF_TYPED_RING
+/* rings as TYPED static objects (arrays of frame slots): values stored into struct fields are
+ * constant-propagated by symex, values stored into a malloc'ed byte array are not */
+#include "device/props/components.h"
+struct ring_slot { struct VideoFrame f; uint8_t px[VERIF_TYPED_RING - sizeof(struct VideoFrame)]; };
+static struct ring_slot ring_store[4][VERIF_RING_SLOTS + 1];
+static int ring_used;
+#endif
 void*
 memory_alloc(size_t capacity_bytes, enum AllocatorHint hint)
 {
     (void)hint;
+#ifdef VERIF_TYPED_RING
+    if (capacity_bytes <= sizeof(ring_store[0]) && ring_used < 4) return ring_store[ring_used++];
+#endif
     void* p = malloc(capacity_bytes);
     VASSUME(p != 0);
     return p;
@@ -71,5 +82,9 @@ memory_alloc(size_t capacity_bytes, enum AllocatorHint hint)
 void
 memory_free(void* address)
 {
+#ifdef VERIF_TYPED_RING
+    for (int i = 0; i < 4; ++i)
+        if (address == (void*)ring_store[i]) return;
+#endif
     free(address);
 }
